@@ -169,6 +169,9 @@ func (b *BitStorage) ReadFrom(r io.Reader) (int64, error) {
 	if err != nil {
 		return n, err
 	}
+	if Len < 0 {
+		return n, fmt.Errorf("data array length less than zero: %d", Len)
+	}
 	if cap(b.data) >= int(Len) {
 		b.data = b.data[:Len]
 	} else {
